@@ -18,6 +18,10 @@ CLAIMED = {
    text="for every statement/expression form x 11 result types (incl. long double and four struct shapes): the emitted code is executed symbolically between two marker calls and z3 decides that the stack pointer and the x87 register-stack depth are identical before and after, for single statements and for one iteration of for/while/do bodies and for-increments (an inductive step); value-producing forms are checked by using the value; x87 over/underflow is a violation",
    note="trusts z3 and the asm executor; external callees assumed psABI-conforming; alloca/VLA exempt; asm statements outside",
    technique="SMT over symbolic execution of the emitted code, stack-pointer and x87-depth invariants between marker calls"),
+ "C03": dict(engine=E2, level="model_checking",
+   text="switch dispatch for 8 controlling types x 9 label sets (negative, > 32 bit, ranges, unsigned, boundaries) x default placement with the controlling value symbolic; statement order for all depth-1/depth-2 nestings of 20 statement forms where every branch condition is a distinct symbolic input and the emitted code's marker-call sequence is compared, path by path, with a reference abstract machine run in lock-step (z3 decides which reference branches each path condition allows); 19 scoping/shadowing patterns with symbolic values; truth tests of every integer type",
+   note="trusts z3, the asm executor and the reference interpreter in props/c03.py; nesting depth > 2 and loop trip counts > 2 outside",
+   technique="SMT path-condition reasoning over symbolic execution of emitted code vs a reference interpreter"),
  "C04": dict(engine=E2, level="model_checking",
    text="bit-field store/load for (base type, width, bit offset) triples with symbolic stored value and ALL other memory symbolic: read-back value, value of the assignment expression, op= and ++, neighbours and every byte outside the storage unit untouched; aggregate copies of 1..40 bytes; address computation of nested members and symbolic indices against the psABI layout model; frame layout (disjointness, alignment, containment) of local object lists; alloca/VLA alignment, disjointness and temporary relocation; zero-fill of partially initialised locals",
    note="trusts z3 and the asm executor; pointer arguments are distinct objects outside the callee's frame; _Alignas > 16 on locals is a recorded finding; heavy alloca shapes only in the thorough tier",
